@@ -233,6 +233,10 @@ def parseLine (p : PState) (km : KMap) (line : String) : PState × KMap :=
          (match j.toNat?, b.toNat? with
           | some j, some b => (p.semit (.bcast a (j + 1) b), km)
           | _, _ => (p.oops line, km))
+       | "send_to_children_unit", [b] =>
+         (match b.toNat? with
+          | some b => (p.semit (.bcast a 0 b), km)
+          | none => (p.oops line, km))
        | "weak_address", ["none"] => (p.emit a (.ctxWeak .weakAddr none), km)
        | "weak_address", ["some", h] =>
          (match h.toNat? with
